@@ -1,7 +1,7 @@
 (* C14 - Growable DNA string is a faithful sequence container.  Statements only. *)
 From Coq Require Import NArith List Bool Arith.
 From DBG Require Import Spec.Dna Packed.Blocks Packed.DnaStringModel Packed.SliceModel Packed.PackedSet Algo.SeqHist
-  Proofs.DnaStringProofs Proofs.SliceProofs Proofs.HammingProofs Proofs.DnaStringMore.
+  Proofs.DnaStringProofs Proofs.SliceProofs Proofs.HammingProofs Proofs.DnaStringMore Packed.AsciiModel Proofs.AsciiPaths.
 Import ListNotations.
 Open Scope N_scope.
 
@@ -67,7 +67,17 @@ Example C14_nonvacuous :
    | Some s => d_abs s = repeat 1 32 ++ [3; 2] /\ length (d_sto s) = 2%nat | None => False end).
 Proof. vm_compute. auto. Qed.
 
+(* the str constructor on ARBITRARY text (code points, ASCII or not): it never fails and holds exactly one base per char -
+   the table value of the char's low byte (`c as u8`), i.e. at an ASCII char the table value of the char itself
+   (A/C/G/T in either case -> 0/1/2/3, anything else -> A).  [s.a.strmask] is this statement with the non-ASCII
+   positions left open; run on every generated text (seeded change C14-m3: one base per UTF-8 BYTE). *)
+Theorem C14_from_str : forall text : list N,
+  AsciiModel.from_dna_string text = Some (ds_of_dna (map (fun c => ascii_base (char_as_u8 c)) text)) /\
+  (forall d, AsciiModel.from_dna_string text = Some d -> ds_len d = length text).
+Proof. intro text. split; [exact (from_str_any text) | exact (from_str_any_len text)]. Qed.
+
 Print Assumptions C14_history.
+Print Assumptions C14_from_str.
 Print Assumptions C14_get.
 Print Assumptions C14_to_bytes.
 Print Assumptions C14_reverse.
